@@ -548,6 +548,20 @@ def sources(c):
                 texts.append((rel, t))
         except Exception:
             pass
+    # a valid rich invoice (every member populated): replication / correction must carry over or clear exactly what the
+    # statement says, also for members no example uses (ordering and delivery details, attachments, exchange rates ...)
+    try:
+        import richvalid
+        richdir = os.path.join(WORK, "c14rich")
+        subprocess.run([os.path.join(BIN, "vharness"), "c14rich", richdir], stdout=subprocess.PIPE, stderr=subprocess.PIPE, env=GOENV)
+        d = richvalid.make_valid(json.load(open(os.path.join(richdir, "rich-bill-invoice.json"))))
+        v = parse_wire(run_go(["c08 envelop " + w(json.dumps(d))], shards=1)[0])
+        if v and v[0] == b"ok":
+            fn = os.path.join(WORK, "c16-rich-invoice.json")
+            open(fn, "wb").write(v[1])
+            texts.append((fn, v[1].decode()))
+    except (OSError, ValueError, KeyError):
+        pass
     obs = run_go(["c08 orig " + w(t) for _, t in texts], shards=16)
     for (rel, t), ol in zip(texts, obs):
         o = jc.Obs(parse_wire(ol)[0])
